@@ -8,13 +8,23 @@ RULE = ("TLC enumerates symbolic credentials from specs/auth/GatesMC.tla: every 
         "relative to the registered ones: ordinary, case variants, affixed, odd, header vocabulary; fingerprint, RSA key "
         "the secret is encrypted to, secret attributes, timestamp class, method, path, query, body, body length "
         "announced or not (chunked), signature form, and each component of the signed tuple), two-field mutations and algorithm x key x shape / time-class products in the thorough tier, "
-        "every request x response payload length in {0,1,15,16,17,4096} for the encryption round trip, and every "
+        "every request x response payload length in {0,1,15,16,17,4096} for the encryption round trip, "
+        "consistently signed requests whose timestamp lies s*m*2^k + j*(tolerance-120) seconds from the server clock for "
+        "every k in 0..63, both signs, j in -1..1 and m in {1,3} (thorough {0,1,3,5}) -- the integer line at every binary "
+        "order of magnitude, incl. values that do not fit 64 bits --, every response write program of the protected "
+        "handler over a buffer it reuses (fill / write / scribble / private write / empty write / flush) up to 3 "
+        "(thorough 4) steps, generated from the writer machine of Gates.tla Part 3b, for plain and encrypted requests, "
+        "every server wiring of Gates.tla Part 4 (native chain with all / some / no middlewares, user supplied chain "
+        "via WithChain, empty user chain; 0..2 Use middlewares; with and without route options) x gate declaration "
+        "(jwt, signature, both on one route) x a core set of valid and invalid credentials (token x signed request "
+        "for routes behind both gates), and every "
         "request sequence of the parser machine (tokens under 4 secrets, expired, tampered, clock steps across the "
-        "history reset) up to the tier's length. Each case is concretised with real crypto (seeded secrets, run-time "
+        "history reset) up to the tier's length. At engine level every case set is driven under each of the 30 wirings "
+        "in turn (one wiring per trace). Each case is concretised with real crypto (seeded secrets, run-time "
         "RSA/ECDSA keys, random binary payloads), sent through the real middleware under both configurations "
         "(previous secret configured or not), and the recorded outcome is validated by TLC against Gates.tla. "
         "evaluations = requests executed; distinct_nontrivial = distinct (configuration, symbolic case) pairs and "
-        "distinct sequences, counted from the generated inputs; all are non-trivial in that each differs from every "
+        "distinct sequences and wiring cases, counted from the generated inputs; all are non-trivial in that each differs from every "
         "other in at least one symbolic field.")
 
 import os
@@ -38,15 +48,34 @@ def _engine_files(run):
             raise vlib.Infra("cannot rewrite the package clause of " + src)
         with open(dst, "w") as fh:
             fh.write(txt.replace("\npackage handler\n", "\npackage rest\n", 1))
-    return [dst, "zz_verif_gates_bind_test.go"]
+    return [dst, "zz_verif_gates_bind_test.go", "zz_verif_c18_wire_test.go"]
 
 
 def _key(obj):
     return json.dumps(obj, sort_keys=True)
 
 
+def _wire_cases(run):
+    """Every server wiring (Gates.tla Part 4) x gate declaration x core credentials, enumerated by TLC; the same
+    run checks that the chain model of bindRoute contains every declared gate under every wiring."""
+    if not hasattr(run, "_c18_wire_cases"):
+        run._c18_wire_cases = _gen(run, "GatesGenWire.cfg")
+    return run._c18_wire_cases
+
+
+def _wirings(run):
+    """The wirings of that enumeration: every engine-level drive builds its gates under each of them in turn."""
+    seen = {}
+    for c in _wire_cases(run):
+        w = {k: v for k, v in c["wire"].items() if k != "decl"}
+        seen.setdefault(_key(w), w)
+    return json.dumps([seen[k] for k in sorted(seen)], separators=(",", ":"))
+
+
 def _drive(run, level, test, inp, env=None):
     if level == "engine":
+        env = dict(env or {})
+        env["VERIF_C18_WIRES"] = _wirings(run)
         return run.go_driver(EPKG, _engine_files(run), test, inp=inp, env=env)
     return run.go_driver(PKG, DRV, test, inp=inp, env=env)
 
@@ -83,7 +112,7 @@ def _jwt_batch(run, cases, seqs, levels, label):
     run.validate(FAM, TRACE[0], TRACE[1], _cat(run, files, "jwt.ndjson"), label=label, split=4000)
 
 
-def _cs_batch(run, cases, levels, label, unverified_levels=("handler",)):
+def _cs_batch(run, cases, levels, label, unverified_levels=("handler",), more=()):
     for c in cases:
         run.distinct.add(("cs", _key(c)))
     # Requests on methods the handler does not verify at all are an input class of their own (open known
@@ -91,7 +120,7 @@ def _cs_batch(run, cases, levels, label, unverified_levels=("handler",)):
     # known-finding classification costs a constant number of TLC runs.
     main = [c for c in cases if c["method"] in VERIFIED_METHODS]
     rest = [c for c in cases if c["method"] not in VERIFIED_METHODS]
-    files = []
+    files = list(more)          # further traces of the same specification, validated in the same TLC runs
     for lv in levels:
         files.append(_drive(run, lv, "TestVerifGatesCs$", main, env={"VERIF_C18_CHUNK": 1}))
         run.evaluations += len(main)
@@ -100,6 +129,19 @@ def _cs_batch(run, cases, levels, label, unverified_levels=("handler",)):
         tr = _drive(run, lv, "TestVerifGatesCs$", rest, env={"VERIF_C18_CHUNK": 1 << 30})
         run.evaluations += len(rest)
         run.validate(FAM, TRACE[0], TRACE[1], tr, label=label + "-unverified-methods-" + lv)
+
+
+def _wire_batch(run, validate=True):
+    """Every wiring x gate declaration x core credentials (for routes behind both gates: token x signed request),
+    through servers built by the real AddRoutes / bindRoutes."""
+    cases = _wire_cases(run)
+    for c in cases:
+        run.distinct.add(("wire", _key(c)))
+    tr = _drive(run, "engine", "TestVerifGatesWire$", cases)
+    run.evaluations += len(cases)
+    if validate:
+        run.validate(FAM, TRACE[0], TRACE[1], tr, label="wire", split=4000)
+    return tr
 
 
 KF_CC = "KF_CsChunkedCipher"
@@ -143,6 +185,10 @@ def check(run):
         "time classes are concretised away from boundaries by >= 120 s (content security, wall clock) or exactly "
         "(JWT, jwt.TimeFunc frozen at the start of the run); the parser's history reset uses the virtual relative clock",
         "X-Request-Uri override (signature covers the header's URI) is outside the single-field-mutation quantifier",
+        "timestamps closer than 120 s to either edge of the tolerance window are classified 'either' by the spec "
+        "(OffClass 'edge'): the clock skew between signing and verifying decides",
+        "user middlewares of the wirings (WithChain, Use) let every request through; the status line of a response the "
+        "handler flushed is not constrained (rest's TimeoutHandler lets it leave with 200)",
     ]
     w = 8 if thorough else 4
     # design level: the parser machine never lets its history decide
@@ -153,9 +199,18 @@ def check(run):
     both = ("handler", "engine")
     if not thorough:
         _jwt_batch(run, _gen(run, "GatesGenJwtMutQ.cfg"), _gen(run, "GatesGenSeq3.cfg"), both, "jwt")
-        _cs_batch(run, _gen(run, "GatesGenCsMutQ.cfg") + _gen(run, "GatesGenCsRtQ.cfg"), both, "cs")
+        _cs_batch(run, _gen(run, "GatesGenCsMutQ.cfg") + _gen(run, "GatesGenCsRtOffQ.cfg") + _gen(run, "GatesGenCsWpQ.cfg"),
+                  both, "cs", more=[_wire_batch(run, validate=False)])
         _cc_batch(run, "GatesGenCsCcQ.cfg", ("handler",))
         return
+    run.model_check(FAM, "GatesMC", "GatesBugWp.cfg", workers=2, expect="violation",
+                    note="documented counterexample: a response writer that adopts the caller's first slice does not "
+                         "hold what was written once the handler reuses its buffer")
+    run.model_check(FAM, "GatesMC", "GatesBugWire.cfg", workers=2, expect="violation",
+                    note="documented counterexample: gates appended to the native chain only leave a route of a "
+                         "server with a user supplied chain unprotected")
+    run.model_check(FAM, "GatesMC", "GatesMCWp.cfg", workers=w,
+                    note="response writer machine, programs <= 6 steps: WriterContract")
     run.model_check(FAM, "GatesMC", "GatesMCSeq5.cfg", workers=w,
                     note="parser history machine, sequences <= 5, all single-field mutations as tokens")
     _jwt_batch(run, _gen(run, "GatesGenJwtMutT.cfg"), _gen(run, "GatesGenSeq4.cfg"), both, "jwt-mut1-seq4")
@@ -163,19 +218,27 @@ def check(run):
     _cs_batch(run, _gen(run, "GatesGenCsMutT.cfg"), both, "cs-mut1", unverified_levels=both)
     _cs_batch(run, _gen(run, "GatesGenCsRtT.cfg"), both, "cs-roundtrip")
     _cs_batch(run, _gen(run, "GatesGenCsMut2.cfg"), both, "cs-mut2")
+    _cs_batch(run, _gen(run, "GatesGenCsOffT.cfg"), both, "cs-timestamp-line")
+    _cs_batch(run, _gen(run, "GatesGenCsWpT.cfg"), both, "cs-write-programs")
+    _wire_batch(run)
     _cc_batch(run, "GatesGenCsCcT.cfg", both)
 
 
 LEVEL_TEXT = ("Systematic exploration driven by a TLA+ specification: TLC enumerates symbolic (Dolev-Yao style) JWTs and "
               "signed requests — all valid ones of the base sets, all single-field mutations (two-field and product sets "
-              "in the thorough tier), all payload-length pairs, all parser request sequences up to length 3/4 — the Go "
+              "in the thorough tier), all payload-length pairs, timestamps at every binary order of magnitude from the clock, "
+              "all response write programs up to 3/4 steps, all server wirings x gate declarations x core credentials, "
+              "all parser request sequences up to length 3/4 — the Go "
               "driver concretises each with real cryptography against the real middleware, and TLC validates every "
-              "recorded outcome against Gates.tla. The parser's history machine is model-checked exhaustively.")
+              "recorded outcome against Gates.tla. The parser's history machine, the buffering response writer machine "
+              "and the chain model of bindRoute are model-checked exhaustively (each with a documented counterexample "
+              "variant).")
 LEVEL_NOTE = ("Exploration, not proof: the symbolic classes are exhaustively enumerated but each class is represented by "
               "one (seeded random) concrete credential; cryptographic strength is assumed. Chunked (unknown-length) "
               "bodies are built in process (ContentLength -1, TransferEncoding chunked), not sent over a socket. "
               "Not covered: the non-strict mode and custom callbacks of the content-security "
-              "handler, X-Request-Uri, concurrency inside TokenParser.")
+              "handler, X-Request-Uri, concurrency inside TokenParser, user middlewares that answer themselves, "
+              "tolerances other than one hour.")
 TECHNIQUE = "TLA+ spec (Gates/GatesMC), TLC case and sequence generation, real-crypto replay, TLC trace validation"
 DESIGN_REF = "DESIGN.md Part B C18"
 
